@@ -3,7 +3,7 @@ import json
 import common
 
 PROPS = "RotoV.Props.C15"
-MODULES = ["RotoV.Lemmas.ListCap", "RotoV.Lemmas.ListRaw", "RotoV.Lemmas.ListInv", "RotoV.Lemmas.ListRefine",
+MODULES = ["RotoV.Lemmas.ListCap", "RotoV.Lemmas.ListRaw", "RotoV.Lemmas.ListInv", "RotoV.Lemmas.ListRefine", "RotoV.Lemmas.ListNested",
            "RotoV.Model.ListM", "RotoV.Model.ListBase"]
 
 
